@@ -74,6 +74,11 @@ def run_c20(tier, args):
     nviol, herr = gate_and_report("C20", binary, b, out, tier=tier)
     nviol += regbad
     total = b
+    if b.counters.get("harness.no_reference"):
+        # a plan met a (schema, directory) pair without a usable fault-free reference: it ended without a verdict.
+        # On the unchanged tree this does not happen; if it does, the run is not a basis for exit 0
+        log("HARNESS-ERROR property=C20: %d plans ended without a verdict because a fault-free reference run failed (see `harness.no_reference`)" % b.counters["harness.no_reference"])
+        herr = True
     if tier == "thorough":
         da = build("asan")
         ba = run_batch(os.path.join(da, "fsim"), "C20", tier, base + nenum + 1, 1500, out, env=dict(os.environ, ASAN_OPTIONS="detect_leaks=0:exitcode=77", UBSAN_OPTIONS="halt_on_error=1:exitcode=77"))
